@@ -1,6 +1,7 @@
 package harness
 
 import (
+	"context"
 	"time"
 
 	"bbsim/simrt"
@@ -26,6 +27,8 @@ func c04Reclaim() {
 		reads     int // how many values it will read in total
 		every     int // commit after this many reads
 		closeEnd  bool
+		eager     bool // after its last commit it asks for one more value and stays blocked in Get
+		blocked   bool
 		pauses    []pause
 		committed int
 		closed    bool
@@ -61,6 +64,9 @@ func c04Reclaim() {
 		k := &cons{c: c, reads: total, every: simrt.DrawRange(1, 3), closeEnd: simrt.Chance(1, 3)}
 		if i > 0 && simrt.Chance(1, 3) {
 			k.reads = simrt.DrawRange(0, total) // a laggard: stops early (commits what it read)
+		} else if simrt.Chance(1, 3) {
+			k.eager = true // caught up and parked in Get while the others make their last commits
+			k.closeEnd = false
 		}
 		for j := 0; j <= k.reads; j++ {
 			k.pauses = append(k.pauses, drawPause())
@@ -69,6 +75,8 @@ func c04Reclaim() {
 	}
 	// the last open consumer never closes in the workload, so that "at least one consumer is open"
 	cs[0].closeEnd = false
+	stop, stopFn := context.WithCancel(bg)
+	defer stopFn()
 	for _, p := range prods {
 		p := p
 		go func() {
@@ -107,6 +115,15 @@ func c04Reclaim() {
 				}
 			}
 			k.pauses[k.reads].do(unit)
+			if k.eager {
+				k.blocked = true
+				simrt.Probe("reader_parked_in_get_during_last_commits")
+				if _, err := k.c.Get(stop); err == nil {
+					simrt.Failf("C04.get", "Get returned a value although everything had been read")
+					return
+				}
+				k.blocked = false
+			}
 			if k.closeEnd {
 				simrt.Fault("close_handle")
 				if err := k.c.Close(); err != nil {
@@ -123,7 +140,7 @@ func c04Reclaim() {
 			return false
 		}
 		for i, k := range cs {
-			if !k.done {
+			if !k.done && !k.blocked {
 				simrt.Failf("C04.stuck", "%s: consumer %d did not finish its program", phase, i)
 				return false
 			}
@@ -157,6 +174,11 @@ func c04Reclaim() {
 		return
 	}
 	simrt.Probe("quiescent_check")
+	// wake the parked readers (a Close of their consumer would otherwise wait for their Get)
+	stopFn()
+	if !expect("after releasing the parked readers") {
+		return
+	}
 	// release holds one at a time: close the slowest open consumer, expect the backlog to shrink
 	for {
 		slow, open := -1, 0
